@@ -43,6 +43,10 @@ def _mk_events(thorough):
         evs.append(["set", k, v])
     evs.append(["fs", "rm", "c"])
     evs.append(["fs", "mk", "c"])
+    # the directory changes behind the shell's back (a Python os.chdir in user code); the shell repairs
+    # $PWD with BaseShell._fix_cwd() before the next prompt
+    for d in ("{R}/c", "{R}/l", "{R}/a/b"):
+        evs.append(["extchdir", d])
     return evs
 
 
@@ -334,6 +338,28 @@ class Harness:
             else:
                 os.makedirs(c)
             return []
+        if ev[0] == "extchdir":
+            from xonsh.shells.base_shell import BaseShell
+
+            pre = self.snap()
+            d = self.sub([ev[1]])[0]
+            if not (os.path.isdir(d) and os.access(d, os.X_OK)):
+                return []
+            os.chdir(d)
+            BaseShell._fix_cwd(_DummyShell())
+            if not check:
+                return []
+            post = self.snap()
+            viols = []
+            same = post["cwd"] is not None and post["PWD"] is not None and os.path.samefile(post["PWD"], post["cwd"])
+            if not same:
+                viols.append({"key": "pwd-names-cwd:extchdir+fix_cwd", "clause": "pwd-names-cwd", "case": {"op": ev, "pre": self._relsnap(pre)}, "observed": self._relsnap(post), "expected": "samefile($PWD, os.getcwd())"})
+            moved = not os.path.samefile(pre["cwd"], post["cwd"])
+            if moved and post["OLDPWD"] != pre["PWD"]:
+                viols.append({"key": "oldpwd-is-previous-pwd:extchdir+fix_cwd", "clause": "oldpwd-is-previous-pwd", "case": {"op": ev, "pre": self._relsnap(pre)}, "observed": self.rel(post["OLDPWD"]), "expected": self.rel(pre["PWD"])})
+            if post["stack"] != pre["stack"]:
+                viols.append({"key": "stack-untouched:extchdir+fix_cwd", "clause": "stack-follows-documented-rules", "case": {"op": ev}, "observed": post["stack"], "expected": pre["stack"]})
+            return viols
         if not check:
             self.call(ev)
             return []
@@ -466,6 +492,11 @@ class Harness:
                 else:
                     self.xsh.env["OLDPWD"] = pre["OLDPWD"]
         return viols
+
+
+class _DummyShell:
+    def print_color(self, *a, **k):
+        pass
 
 
 _THOROUGH = False
